@@ -6,6 +6,9 @@ mutations/results.json.
 
   lib/run_mutations.py <CHECK-ID> [name-substring ...]     mutations/<ID>-*.diff
   lib/run_mutations.py <CHECK-ID> --patch <file> [...]     any patch files
+  lib/run_mutations.py --scratch <CHECK-ID> ...            the same, on a scratch copy of
+      /repo and /verif under /tmp (no repository lock needed: runs in parallel
+      with everything else; the copy and its build output are removed at the end)
 
 The model-only part of a check does not depend on the code: VERIF_SKIP_MC=1
 lets checks skip it here.
@@ -21,9 +24,49 @@ VERIF = os.path.dirname(os.path.dirname(os.path.abspath(__file__)))
 RESULTS = os.path.join(VERIF, "mutations", "results.json")
 
 
+def make_scratch():
+    """A private copy of /repo (working tree, HEAD) and of /verif with the
+    harness crates pointed at it; the dependency build output is copied so
+    that only krill and the harness are rebuilt."""
+    import shutil
+    root = f"/tmp/verif-scratch-{os.getpid()}"
+    shutil.rmtree(root, ignore_errors=True)
+    os.makedirs(root)
+    import fcntl
+    os.makedirs(os.path.join(VERIF, "out"), exist_ok=True)
+    with open(os.path.join(VERIF, "out", ".repo.lock"), "w") as lock:
+        # (shared: nobody has a patch applied to /repo while it is copied)
+        fcntl.flock(lock, fcntl.LOCK_SH)
+        subprocess.run(["rsync", "-a", "--exclude", "/target", "--exclude",
+                        "/.git", "/repo/", f"{root}/repo/"], check=True)
+    subprocess.run(["rsync", "-a", "--exclude", "/out", "--exclude", "/.git",
+                    f"{VERIF}/", f"{root}/verif/"], check=True)
+    for d in os.listdir(f"{root}/verif"):
+        toml = f"{root}/verif/{d}/Cargo.toml"
+        if d.startswith("harness") and os.path.exists(toml):
+            t = open(toml).read().replace('path = "/repo"',
+                                          f'path = "{root}/repo"')
+            open(toml, "w").write(t)
+    return root
+
+
 def main():
-    pid = sys.argv[1]
-    args = sys.argv[2:]
+    argv = sys.argv[1:]
+    scratch = None
+    if argv and argv[0] == "--scratch":
+        argv = argv[1:]
+        scratch = make_scratch()
+    try:
+        return run(argv, scratch)
+    finally:
+        if scratch:
+            import shutil
+            shutil.rmtree(scratch, ignore_errors=True)
+
+
+def run(argv, scratch):
+    pid = argv[0]
+    args = argv[1:]
     if args and args[0] == "--patch":
         patches = [os.path.abspath(p) for p in args[1:]]
     else:
@@ -40,10 +83,28 @@ def main():
         t0 = time.time()
         env = dict(os.environ, VERIF_SKIP_MC="1")
         with open(log, "w") as f:
-            p = subprocess.run(
-                [os.path.join(VERIF, "lib", "with_mutation.py"), patch, "--",
-                 os.path.join(VERIF, "check"), pid, "--tier", "quick"],
-                stdout=f, stderr=subprocess.STDOUT, env=env, cwd=VERIF)
+            if scratch:
+                env["VERIF_EVIDENCE_DIR"] = f"{scratch}/verif/out/evidence"
+                a = subprocess.run(["git", "apply", patch],
+                                   cwd=f"{scratch}/repo", stdout=f,
+                                   stderr=subprocess.STDOUT)
+                if a.returncode != 0:
+                    p = a
+                    p.returncode = 2
+                else:
+                    p = subprocess.run(
+                        [f"{scratch}/verif/check", pid, "--tier", "quick"],
+                        stdout=f, stderr=subprocess.STDOUT, env=env,
+                        cwd=f"{scratch}/verif")
+                    subprocess.run(["git", "apply", "-R", patch],
+                                   cwd=f"{scratch}/repo", stdout=f,
+                                   stderr=subprocess.STDOUT)
+            else:
+                p = subprocess.run(
+                    [os.path.join(VERIF, "lib", "with_mutation.py"), patch,
+                     "--", os.path.join(VERIF, "check"), pid, "--tier",
+                     "quick"],
+                    stdout=f, stderr=subprocess.STDOUT, env=env, cwd=VERIF)
         text = open(log).read()
         first = next((ln for ln in text.splitlines()
                       if ln.startswith("[check] violation:")), "")
@@ -54,16 +115,19 @@ def main():
             "first": first[19:260],
             "seconds": round(time.time() - t0),
         }
-        try:
-            allr = json.load(open(RESULTS))
-        except (OSError, ValueError):
-            allr = []
-        allr = [e for e in allr
-                if not (e["check"] == pid and e["change"] == name)]
-        allr.append(entry)
-        allr.sort(key=lambda e: (e["change"], e["check"]))
-        with open(RESULTS, "w") as f:
-            json.dump(allr, f, indent=1)
+        import fcntl
+        with open(RESULTS + ".lock", "w") as lk:
+            fcntl.flock(lk, fcntl.LOCK_EX)
+            try:
+                allr = json.load(open(RESULTS))
+            except (OSError, ValueError):
+                allr = []
+            allr = [e for e in allr
+                    if not (e["check"] == pid and e["change"] == name)]
+            allr.append(entry)
+            allr.sort(key=lambda e: (e["change"], e["check"]))
+            with open(RESULTS, "w") as f:
+                json.dump(allr, f, indent=1)
         print(json.dumps(entry), flush=True)
 
 
